@@ -2,17 +2,27 @@
    bolt_decode / boltv2_decode / bolt_encode are the models of Decode / Encode of the code in the tree
    (bolt_enc_checked, xp_hdr_checked, dubbo_setdata_resets_raw read from the source on every run). *)
 From Coq Require Import List NArith Bool.
-From MV Require Import Lib.Bytes Lib.Dec Lib.Seg Gen.ProtoConsts Gen.CodecSrc Model.HeaderKV Model.Bolt Model.Xcodecs
+From MV Require Import Lib.Bytes Lib.Dec Lib.Seg Model.CodecParams Model.HeaderKV Model.Bolt Model.Xcodecs
   Proofs.HeaderKV Proofs.Bolt Proofs.BoltEnc Proofs.Xcodecs Proofs.XcodecsEnc.
+(* the generated files are only Required (never imported): every name below is the committed expected value of
+   Model/CodecParams.v unless it is qualified with MV.Gen. *)
+From MV Require Gen.ProtoConsts Gen.CodecSrc.
 (* the comparison functions used by the correspondence shards: imported so that they are rebuilt with this file *)
 From MV Require Model.BoltCheck Model.XCheck.
 Import ListNotations.
 Open Scope N_scope.
 
-Theorem c01_codec_translators_ok : ProtoConsts_translator_ok = true /\ CodecSrc_translator_ok = true.
+Theorem c01_codec_translators_ok : MV.Gen.ProtoConsts.ProtoConsts_translator_ok = true /\ MV.Gen.CodecSrc.CodecSrc_translator_ok = true.
 Proof. exact (conj eq_refl eq_refl). Qed.
-Theorem c01_codec_src_repaired : bolt_enc_checked = true /\ xp_hdr_checked = true /\ dubbo_setdata_resets_raw = true /\ thrift_copies_frame = true /\
-  setdata_sees_inplace_rewrite = true.
+
+(* THE TIE of the constants and source shapes: what the translators read from /repo on this run equals, by conversion, the
+   values the models are written with and the theorems below are proved about (Model/CodecParams.v): field offsets, header
+   lengths, magic numbers, HTTP method set, HTTP/2 preface; and every repaired spot still has its repaired shape *)
+Theorem c01_codec_gen_matches_expected :
+  MV.Gen.ProtoConsts.ProtoConsts_all = ProtoConsts_all /\ MV.Gen.CodecSrc.CodecSrc_all = CodecSrc_all.
+Proof. exact (conj eq_refl eq_refl). Qed.
+Theorem c01_codec_src_repaired : MV.Gen.CodecSrc.bolt_enc_checked = true /\ MV.Gen.CodecSrc.xp_hdr_checked = true /\ MV.Gen.CodecSrc.dubbo_setdata_resets_raw = true /\ MV.Gen.CodecSrc.thrift_copies_frame = true /\
+  MV.Gen.CodecSrc.setdata_sees_inplace_rewrite = true.
 Proof. exact (conj eq_refl (conj eq_refl (conj eq_refl (conj eq_refl eq_refl)))). Qed.
 
 (* FAST PATH.  For every content of the read buffer from which Decode extracts a frame (any field values, any
